@@ -137,6 +137,10 @@ pub enum How {
     ParUniform { parts: usize, threads: usize },
     /// degree-balanced split through `ParGraph::with_dcf`
     ParDcf { parts: usize, threads: usize },
+    /// `par_comp(&VecGraph)`: as many uniform parts as pool threads
+    ParVec { threads: usize },
+    /// `par_comp(&BvGraphSeq)` on a sequentially compressed copy (sequential splitter)
+    ParSeqGraph { threads: usize },
 }
 
 /// Imposes a completion order on the parallel-compression workers through the
@@ -189,6 +193,17 @@ where
             let pg = ParGraph::new(vg, *parts);
             let pool = rayon::ThreadPoolBuilder::new().num_threads(*threads).build()?;
             pool.install(|| b.par_comp::<E, _>(&pg))
+        }
+        How::ParVec { threads } => {
+            let pool = rayon::ThreadPoolBuilder::new().num_threads(*threads).build()?;
+            pool.install(|| b.par_comp::<E, _>(&vg))
+        }
+        How::ParSeqGraph { threads } => {
+            let src = base.with_file_name("src");
+            BvComp::with_basename(&src).comp_graph::<BE>(&vg)?;
+            let seq = BvGraphSeq::with_basename(&src).endianness::<BE>().load()?;
+            let pool = rayon::ThreadPoolBuilder::new().num_threads(*threads).build()?;
+            pool.install(|| b.par_comp::<E, _>(&seq))
         }
         How::ParDcf { parts, threads } => {
             let dcf = vg.build_dcf();
@@ -515,6 +530,13 @@ pub fn run(seed: u64, count: usize, max_n: usize, mode: &str, out: &mut impl Wri
                         b.to_vec()
                     })).unwrap_or_else(|_| vec![0, n]);
                     (How::ParDcf { parts, threads: rng.range(1, 16) }, "par_dcf", bounds)
+                } else if rng.chance(1, 6) {
+                    // the graph itself as source: one uniform part per pool thread
+                    let threads = rng.range(1, 16);
+                    let step = n.div_ceil(threads);
+                    let ucuts: Vec<usize> = (0..=threads).map(|i| (i * step).min(n)).collect();
+                    if rng.chance(1, 2) { (How::ParVec { threads }, "par_vecgraph", ucuts) }
+                    else { (How::ParSeqGraph { threads }, "par_bvgraphseq", ucuts) }
                 } else if rng.chance(1, 8) {
                     // uniform split through ParGraph::new (possibly more parts than nodes)
                     let parts = rng.range(1, 2 * n + 3);
